@@ -43,8 +43,10 @@ inductive CPc
   | stopSet                                -- destructor: `m_stop = true` done, `notify_all` pending
   | joining                                -- destructor: in the `join` loop
   | finished
-  | seq (n i : Nat) (busy : Bool)          -- sequential path of `map` (`size()==1 || …`): `n` operator calls to make,
-                                           -- `i` made, `busy` = call `i` is in progress in the caller with `tnum = 0`
+  | seq (n i : Nat) (busy : Bool) (err : Option Nat)
+                                           -- sequential path of `map` (`size()==1 || …`): `n` operator calls to make,
+                                           -- `i` made, `busy` = call `i` is in progress in the caller with `tnum = 0`,
+                                           -- `err` = position of the first call that threw (`std::exception_ptr error`)
   deriving DecidableEq, Repr
 
 structure St where
@@ -57,6 +59,7 @@ structure St where
   exec : Nat → Nat          -- ghost: how many times task `t` was started
   threw : Nat → Bool        -- outcome stored in the shared state of the future of a `done` task: true = exception
   sexec : Nat → Nat → Nat   -- ghost: how many times the sequential path of client `c` started its operator call `k`
+  sthrew : Nat → Nat → Bool -- ghost: did operator call `k` of the sequential path of client `c` throw
 
 def upd {β : Type} (f : Nat → β) (k : Nat) (v : β) : Nat → β := fun i => if i = k then v else f i
 
@@ -81,11 +84,20 @@ inductive Ev
   | cReturn (c : Nat)      -- client: all its futures are ready, the call returns (`section_t::block` + `~section_t`)
   | dStop (c : Nat)        -- destructor: lock; `m_stop = true`; unlock                                (parallel.cpp:118-125)
   | dJoined (c : Nat)      -- destructor: every `join` returned                                        (parallel.cpp:129-134)
-  | sStart (c n : Nat)     -- `map` takes the sequential path with `n` operator calls                   (parallel.h:233-239,279-285)
+  | sStart (c n : Nat)     -- `map` takes the sequential path with `n` operator calls                   (parallel.h:239-262,300-323)
   | sOpBegin (c : Nat)     -- the caller starts operator call `i` with `tnum = 0`
-  | sOpEnd (c : Nat) (threw : Bool)  -- it returns; an exception leaves `map` at once (the loop is not protected)
-  | sReturn (c : Nat)      -- the loop is over, `map` returns
+  | sOpEnd (c : Nat) (threw : Bool)  -- it returns or throws; the first exception is kept, the loop goes on
+  | sReturn (c : Nat)      -- the loop is over: `map` returns, or rethrows the kept exception if `raise`
   deriving Repr
+
+/-- `if (!error) error = std::current_exception();` in the `catch` of the sequential loops -/
+def firstErr (err : Option Nat) (i : Nat) (threw : Bool) : Option Nat :=
+  match err with
+  | some p => some p
+  | none => if threw then some i else none
+
+/-- `if (raise && error) std::rethrow_exception(error);` after the sequential loops: the position whose exception leaves -/
+def seqResult (err : Option Nat) (raise : Bool) : Option Nat := if raise then err else none
 
 /-- is the future of a task ready? -/
 def ready? (t : TS) : Bool := match t with | .done => true | .dropped => true | _ => false
@@ -143,25 +155,26 @@ def step (s : St) : Ev → Option St
   | .dJoined c =>
     if s.cpc c = .joining ∧ (∀ v, v < s.nw → s.wpc v = .exited) then some { s with cpc := upd s.cpc c .finished } else none
   | .sStart c n =>
-    if s.cpc c = .idle then some { s with cpc := upd s.cpc c (.seq n 0 false) } else none
+    if s.cpc c = .idle then some { s with cpc := upd s.cpc c (.seq n 0 false none) } else none
   | .sOpBegin c =>
     match s.cpc c with
-    | .seq n i busy =>
+    | .seq n i busy err =>
       if busy = false ∧ i < n then
-        some { s with cpc := upd s.cpc c (.seq n i true),
+        some { s with cpc := upd s.cpc c (.seq n i true err),
                       sexec := fun c' k => if c' = c ∧ k = i then s.sexec c i + 1 else s.sexec c' k }
       else none
     | _ => none
   | .sOpEnd c threw =>
     match s.cpc c with
-    | .seq n i busy =>
+    | .seq n i busy err =>
       if busy = true then
-        some { s with cpc := upd s.cpc c (if threw then .finished else .seq n (i + 1) false) }
+        some { s with cpc := upd s.cpc c (.seq n (i + 1) false (firstErr err i threw)),
+                      sthrew := fun c' k => if c' = c ∧ k = i then threw else s.sthrew c' k }
       else none
     | _ => none
   | .sReturn c =>
     match s.cpc c with
-    | .seq n i busy => if busy = false ∧ i = n then some { s with cpc := upd s.cpc c .finished } else none
+    | .seq n i busy _ => if busy = false ∧ i = n then some { s with cpc := upd s.cpc c .finished } else none
     | _ => none
 
 def run : St → List Ev → Option St
@@ -173,7 +186,7 @@ def run : St → List Ev → Option St
 /-- a freshly constructed pool with `nw` workers, no client call yet -/
 def init (nw : Nat) : St :=
   { nw := nw, queue := [], stop := false, ts := fun _ => .fresh, wpc := fun _ => .ready, cpc := fun _ => .idle,
-    exec := fun _ => 0, threw := fun _ => false, sexec := fun _ _ => 0 }
+    exec := fun _ => 0, threw := fun _ => false, sexec := fun _ _ => 0, sthrew := fun _ _ => false }
 
 def Reachable (s : St) : Prop := ∃ nw es, run (init nw) es = some s
 
@@ -281,9 +294,9 @@ inductive TPc
   | wClr1 (w : Nat) | wClr2 (w : Nat) | wClr3 (w : Nat) | wGone
   | eq0 (call : Nat) | eq1 (call : Nat) | eq2 (call : Nat) | eq3 (call cid : Nat) | eq4 (call cid : Nat)
   | mp0 (call : Nat)
-  | mpS (call cid i : Nat) | mpS1 (call cid i : Nat) | mpS2 (call cid i : Nat) | mpSX (call res : Nat) | mpSR (call cid : Nat)
+  | mpS (call cid i : Nat) | mpS1 (call cid i : Nat) | mpS2 (call cid i : Nat) | mpSR (call : Nat)
   | mpP0 (call : Nat) | mpP1 (call : Nat) | mpP2 (call : Nat) | mpP3 (call : Nat) (rts : List Nat)
-  | mpP4 (call cid : Nat) | mpP5 (call cid : Nat) | mpP6 (call cid : Nat) | mpP7 (call cid : Nat)
+  | mpP4 (call cid : Nat) | mpP5 (call cid : Nat) | mpP6 (call cid : Nat) | mpP7 (call : Nat)
   | ds0 | ds1 | ds2 | ds3 (cid : Nat) | ds4 (cid : Nat) | dsJ (cid k : Nat) (inJoin : Bool)
   deriving Repr
 
@@ -359,8 +372,9 @@ def Ck.noteOp (k : Ck) (tnum : Nat) : Ck :=
 def unexpected (tid : Nat) (p : TPc) (e : Raw) : Except Err Ck :=
   .error (.lock s!"program order: thread {tid} in state {reprStr p} emits event {e.kind} ({e.a},{e.b})")
 
-/-- the call blocked on the futures of client `cid` returns with result code `res` -/
-def Ck.doReturn (k : Ck) (calls : Array Call) (call cid res : Nat) (mapReturned : Option Bool) : Except Err Ck := do
+/-- the call blocked on the futures of client `cid` returns with result code `res`; `final` = the call's result is
+    known to the caller at this point (otherwise `callRet` follows) -/
+def Ck.doReturn (k : Ck) (calls : Array Call) (call cid res : Nat) (_final : Bool) : Except Err Ck := do
   let some cl := calls[call]? | .error (.lock s!"unknown call {call}")
   match k.s.cpc cid with
   | .waiting ts =>
@@ -368,8 +382,6 @@ def Ck.doReturn (k : Ck) (calls : Array Call) (call cid res : Nat) (mapReturned 
     let k' ← k.emit (.cReturn cid)
     let want := k.predict ts cl.raise
     if want ≠ res then .error (.path s!"call {call} ended with code {res}, the model says {want}")
-    else if mapReturned = some true ∧ res ≠ 0 then .error (.path s!"call {call}: map_return although an exception leaves")
-    else if mapReturned = some false ∧ res = 0 then .error (.path s!"call {call}: no map_return although no exception leaves")
     else k'.setRes call res
   | _ => .error (.path s!"call {call} returns but its client is not waiting in the model")
 
@@ -388,7 +400,7 @@ def Ck.onEvent (calls : Array Call) (k : Ck) (e : Raw) : Except Err Ck := do
     else if e.kind = K.callRet then
       -- the future of an `enqueue` call has been waited
       match k.ccid.getD e.a none with
-      | some cid => k.doReturn calls e.a cid e.b none
+      | some cid => k.doReturn calls e.a cid e.b true
       | none => .error (.lock s!"call {e.a} waited before it was made")
     else bad
   -- worker (parallel.cpp:24-69)
@@ -474,12 +486,19 @@ def Ck.onEvent (calls : Array Call) (k : Ck) (e : Raw) : Except Err Ck := do
     if e.kind = K.opBegin ∧ e.a = call then
       if e.b ≠ 0 then .error (.path s!"sequential path passes tnum {e.b}")
       else pure ((k.noteOp 0).setTpc tid (.mpS1 call cid i))
-    else if e.kind = K.mapReturn then
-      -- `sReturn` is enabled only when the loop is over
-      match k.s.cpc cid with
-      | .seq n j false => if j = n then pure (k.setTpc tid (.mpSR call cid)) else
-          .error (.path s!"call {call}: sequential map returns after {j} of {n} operator calls")
-      | _ => .error (.path s!"call {call}: sequential map returns in a wrong state")
+    else if e.kind = K.mapReturn ∨ (e.kind = K.callRet ∧ e.a = call) then
+      -- `sReturn` is enabled only when the loop is over; `map_return` is reached iff nothing is rethrown
+      match k.s.cpc cid, calls[call]? with
+      | .seq n j _ err, some cl =>
+        let want := match seqResult err cl.raise with | none => 0 | some p => 1 + p
+        if j ≠ n then .error (.path s!"call {call}: sequential map ends after {j} of {n} operator calls")
+        else if e.kind = K.mapReturn then
+          if want ≠ 0 then .error (.path s!"call {call}: map_return although the model rethrows (code {want})")
+          else do pure ((← (← k.emit (.sReturn cid)).setRes call 0).setTpc tid (.mpSR call))
+        else if e.b = 0 then .error (.path s!"call {call}: no map_return although no exception leaves")
+        else if e.b ≠ want then .error (.path s!"call {call} ended with code {e.b}, the model says {want}")
+        else do pure ((← (← k.emit (.sReturn cid)).setRes call want).setTpc tid .idle)
+      | _, _ => .error (.path s!"call {call}: sequential map ends in a wrong state")
     else bad
   | .mpS1 call cid i =>
     if e.kind = K.opArg then
@@ -491,18 +510,12 @@ def Ck.onEvent (calls : Array Call) (k : Ck) (e : Raw) : Except Err Ck := do
     else bad
   | .mpS2 call cid i =>
     if e.kind = K.opEnd ∧ e.a = call then do
-      let k ← k.emit (.sOpEnd cid (e.b != 0))
-      pure (k.setTpc tid (if e.b != 0 then .mpSX call (1 + i) else .mpS call cid (i + 1)))
+      pure ((← k.emit (.sOpEnd cid (e.b != 0))).setTpc tid (.mpS call cid (i + 1)))
     else bad
-  | .mpSX call res =>
+  | .mpSR call =>
     if e.kind = K.callRet ∧ e.a = call then
-      if e.b = res then do pure ((← k.setRes call res).setTpc tid .idle)
-      else .error (.path s!"call {call} ended with code {e.b}, the model says {res}")
-    else bad
-  | .mpSR call cid =>
-    if e.kind = K.callRet ∧ e.a = call then
-      if e.b = 0 then do pure ((← (← k.emit (.sReturn cid)).setRes call 0).setTpc tid .idle)
-      else .error (.path s!"call {call} ended with code {e.b}, the model says 0")
+      if e.b = 0 then pure (k.setTpc tid .idle)
+      else .error (.path s!"call {call}: map_return although an exception leaves (code {e.b})")
     else bad
   | .mpP0 call => if e.kind = K.mapParallel then pure (k.setTpc tid (.mpP1 call)) else bad
   | .mpP1 call => if e.kind = K.preLock then pure (k.setTpc tid (.mpP2 call)) else bad
@@ -525,17 +538,17 @@ def Ck.onEvent (calls : Array Call) (k : Ck) (e : Raw) : Except Err Ck := do
     if e.kind = K.notifyAll then do pure ((← k.emit (.cNotify cid none)).setTpc tid (.mpP5 call cid)) else bad
   | .mpP5 call cid => if e.kind = K.blockBegin then pure (k.setTpc tid (.mpP6 call cid)) else bad
   | .mpP6 call cid =>
-    if e.kind = K.mapReturn then
-      -- the call is over: every future must be ready (checked again by `cReturn` at `callRet`)
-      match k.s.cpc cid with
-      | .waiting ts =>
-        if ts.all (fun t => ready? (k.s.ts t)) then pure (k.setTpc tid (.mpP7 call cid))
-        else .error (.path s!"call {call}: map_return before all its tasks finished")
-      | _ => .error (.path s!"call {call}: map_return in a wrong state")
-    else if e.kind = K.callRet ∧ e.a = call then do pure ((← k.doReturn calls call cid e.b (some false)).setTpc tid .idle)
+    -- normal return: `cReturn` is emitted here (it is enabled only when every future is ready) and the model must say
+    -- that no exception leaves; otherwise the exception arrives at the caller (`callRet` without `map_return`)
+    if e.kind = K.mapReturn then do pure ((← k.doReturn calls call cid 0 false).setTpc tid (.mpP7 call))
+    else if e.kind = K.callRet ∧ e.a = call then
+      if e.b = 0 then .error (.path s!"call {call}: no map_return although no exception leaves")
+      else do pure ((← k.doReturn calls call cid e.b true).setTpc tid .idle)
     else bad
-  | .mpP7 call cid =>
-    if e.kind = K.callRet ∧ e.a = call then do pure ((← k.doReturn calls call cid e.b (some true)).setTpc tid .idle)
+  | .mpP7 call =>
+    if e.kind = K.callRet ∧ e.a = call then
+      if e.b = 0 then pure (k.setTpc tid .idle)
+      else .error (.path s!"call {call}: map_return although an exception leaves (code {e.b})")
     else bad
   -- destructor (parallel.cpp:116-135)
   | .ds0 => if e.kind = K.preLock then pure (k.setTpc tid .ds1) else bad
